@@ -898,6 +898,28 @@ func TestB2C03Structure(t *testing.T) {
 		if err := c03Streams(doc.bytes); err != nil {
 			t.Errorf("B2-FAIL stream-length %s: %v", doc.desc, err)
 		}
+		// the decode parameters in the file describe the encoder that was used: an LZW stream
+		// written without early change says so, whatever else is in /DecodeParms
+		if doc.userPwd == "" && doc.ownerPwd == "" {
+			for _, st := range doc.streams {
+				for _, f := range st.filters {
+					lz, ok := f.(FilterLZW)
+					if !ok || lz.OffByOne {
+						continue
+					}
+					hdr := []byte(fmt.Sprintf("%d %d obj", st.ref.Number(), st.ref.Generation()))
+					i := bytes.Index(doc.bytes, append([]byte("\n"), hdr...))
+					if i < 0 {
+						continue // inside an object stream or the first object
+					}
+					j := bytes.Index(doc.bytes[i:], []byte("stream"))
+					dictText := doc.bytes[i : i+j]
+					if !regexp.MustCompile(`/EarlyChange\s+0`).Match(dictText) {
+						t.Errorf("B2-FAIL decode-parms %s: LZW stream %v written without early change lacks /EarlyChange 0: %.200q", doc.desc, st.ref, dictText)
+					}
+				}
+			}
+		}
 	}
 	t.Logf("B2-CASES %d", cases)
 }
@@ -963,6 +985,29 @@ func TestB2C03Rejected(t *testing.T) {
 				}
 				if err := c03Check(buf.Bytes()); err != nil {
 					t.Errorf("B2-FAIL rejected-call-leaves-trace %s: %v", desc, err)
+				}
+				if r, err := NewReader(bytes.NewReader(buf.Bytes()), int64(buf.Len()), nil); err != nil {
+					t.Errorf("B2-FAIL rejected-call-leaves-trace %s: open: %v", desc, err)
+				} else {
+					if got, err := r.Get(bad, true); err != nil || got != nil {
+						t.Errorf("B2-FAIL rejected-call-leaves-trace %s: the rejected reference reads as %v (%v), want null", desc, got, err)
+					}
+					if got, err := r.Get(later, true); err != nil || !Equal(got, Dict{"After": String("the rejected call")}) {
+						t.Errorf("B2-FAIL rejected-call-leaves-trace %s: the object written afterwards reads as %v (%v)", desc, got, err)
+					}
+				}
+				// the reference can be used again after the rejected call
+				var buf2 bytes.Buffer
+				if w2, err := NewWriter(&buf2, v, &WriterOptions{HumanReadable: human}); err == nil {
+					a2 := w2.Alloc()
+					w2.GetMeta().Catalog.Pages = a2
+					w2.Put(a2, Dict{"Type": Name("Pages"), "Kids": Array{}, "Count": Integer(0)})
+					bad2 := w2.Alloc()
+					if rj.call(w2, bad2) != nil {
+						if err := w2.Put(bad2, String("second attempt")); err != nil {
+							t.Errorf("B2-FAIL rejected-call-leaves-trace %s: the reference cannot be written after the rejected call: %v", desc, err)
+						}
+					}
 				}
 			}
 			// a stream closed with a wrong caller-supplied /Length
